@@ -218,7 +218,6 @@ var staleAllowed = map[string]struct {
 	"cmd.var samplesitesCmd$1":      {1, "output name, recomputed per sample when several files are written"},
 	"cmd.var subseqCmd$1":           {3, "output file and file suffix of the current window/alignment: reopened when one file per window is requested"},
 	"cmd.var subsitesCmd$1":         {2, "output file, as in subseq; the site list, converted to alignment coordinates only when a reference sequence is given"},
-	"io/clustal.(*Parser).Parse":    {1, "number of sequences of the first block, compared with the following blocks"},
 }
 
 // checkStaleState: no function of the given packages carries, from one iteration of a loop to the
